@@ -2,6 +2,7 @@
 mod c05;
 mod c06;
 mod c07;
+mod c13;
 
 fn main() {
     fvcore::quiet_panics();
@@ -10,6 +11,7 @@ fn main() {
         Some("c05") => c05::main(&args[1..]),
         Some("c06") => c06::main(&args[1..]),
         Some("c07") => c07::main(&args[1..]),
+        Some("c13") => c13::main(&args[1..]),
         _ => {
             eprintln!("usage: fv-write <c06|...> ...");
             std::process::exit(2);
